@@ -469,6 +469,8 @@ enum Obs {
     Abort { index: usize, signal: Option<i32>, code: Option<i32> },
 }
 
+static CONFIRMED_TIMEOUTS: std::sync::atomic::AtomicUsize = std::sync::atomic::AtomicUsize::new(0);
+
 struct SliceResult {
     obs: Vec<Obs>,
     done: u64,
@@ -524,9 +526,17 @@ fn run_slice(family: &str, thorough: bool, start: usize, end: usize, stride: usi
     }
     use std::os::unix::process::ExitStatusExt;
     if let Some(t) = timeout_at {
+        // an implementation that hangs on a whole class of inputs would cost the budget once per input:
+        // after three confirmed time-outs of a run the rest of the slice is left unexplored (and says so)
+        if CONFIRMED_TIMEOUTS.load(std::sync::atomic::Ordering::SeqCst) >= 3 {
+            return res;
+        }
         // a time-out is a wall-clock observation: confirm it alone in a fresh worker before believing it
         if !(end == start + 1 && stride == 1) {
             let again = run_slice(family, thorough, t, t + 1, 1, 0);
+            if again.obs.iter().any(|o| matches!(o, Obs::Timeout { .. })) {
+                CONFIRMED_TIMEOUTS.fetch_add(1, std::sync::atomic::Ordering::SeqCst);
+            }
             if !again.obs.iter().any(|o| matches!(o, Obs::Timeout { .. })) {
                 res.obs.retain(|o| !matches!(o, Obs::Timeout { index, .. } if *index == t));
                 res.obs.extend(again.obs);
@@ -657,9 +667,13 @@ pub fn run(ctx: &mut Ctx) {
         ctx.outcome_n(&format!("{}: parsed, analysis found errors", family), reached[2]);
         ctx.outcome_n(&format!("{}: all four stages OK", family), reached[3]);
         ctx.extra.insert(format!("stage_reach[{}]", family), json!({"lexer-or-parser-rejects": reached[0] + reached[1], "parsed+rendered (analysis errors)": reached[2], "all stages ok": reached[3], "slowest_input_s": slowest}));
-        if done != n as u64 {
+        if done != n as u64 && CONFIRMED_TIMEOUTS.load(std::sync::atomic::Ordering::SeqCst) < 3 {
             ctx.fail("machinery/inputs-lost", &format!("family {}: {} of {} inputs accounted for", family, done, n), json!({"family": family}));
         }
+    }
+    if CONFIRMED_TIMEOUTS.load(std::sync::atomic::Ordering::SeqCst) >= 3 {
+        ctx.exhaustive = false;
+        ctx.extra.insert("stopped_early".into(), json!("three inputs ran beyond the time budget (confirmed alone): the slices they were found in were not explored further"));
     }
     ctx.states = ctx.evaluations;
     // samples
